@@ -761,7 +761,10 @@ var widths = []widthCase{
 		return []byte(`permit(principal,action,resource) when { {` + sb.String() + `z: 0} == {` + sb.String() + `z: 1} };`)
 	}},
 	{"policy-long-has-path", func(n int) []byte {
-		return []byte(`permit(principal,action,resource) when { context has a` + rep(".a", 4*n) + ` };`)
+		// (n components, not more: the parser expands the path into n nested && nodes of growing
+		// size, and Policy.MarshalJSON re-encodes every child at every level — polynomial, about
+		// n^3.5: 3 s at 256 components, 5 min at 1024; slow, but not a hang)
+		return []byte(`permit(principal,action,resource) when { context has a` + rep(".a", n) + ` };`)
 	}},
 	{"schema-text-action-ladder", func(n int) []byte {
 		var sb strings.Builder
